@@ -109,6 +109,34 @@ func init() {
 				res.Distinct++
 			}
 		}
+		// a reorganisation leaves the node with a SHORTER best chain than the height the block poller had already
+		// handed out (more work in fewer blocks, invalidateblock): the transaction sits `d` blocks deep on the new
+		// chain, `d` below the required depth
+		for _, confs := range []uint32{2, 3, 6} {
+			for drop := uint32(1); drop <= 3; drop++ {
+				for d := uint32(1); d < confs; d++ {
+					rig := newWatchRig(confs)
+					rig.rpc.set(rpcView{rpcHeight: 1004, rng: "nf"}) // chain A does not hold the transaction
+					rig.w.AddWaitForConfirmationTx("swap", "txid", 0, 1000, 60, nil)
+					rig.w.VerifNotify("swap", 1004)
+					tipB := 1005 - drop
+					rig.rpc.set(rpcView{rpcHeight: uint64(tipB), rng: "nf", txout: &txwatcher.TxOutResp{BestBlockHash: "match", Confirmations: d}})
+					rig.w.VerifNotify("swap", 1005) // block A1005 had been seen before the switch to chain B
+					rig.w.VerifNotify("swap", 1005)
+					res.Evaluations++
+					res.Distinct++
+					res.Histogram["rpc: handed height above the node's tip"]++
+					rig.mu.Lock()
+					cbs := append([]string{}, rig.cb...)
+					rig.mu.Unlock()
+					if len(cbs) > 0 && cbs[0][:2] == "ok" {
+						res.addFinding("C20/rpc/confirmed-without-depth", fmt.Sprintf("confirmed reported at true depth %d < %d required: the handed height 1005 is above the node's tip %d after a reorganisation", d, confs, tipB),
+							map[string]interface{}{"confs": confs, "schedule": fmt.Sprintf("chain A tip 1004 without the tx; block A1005 handed; node reorganised to chain B tip %d with the tx %d deep", tipB, d)})
+					}
+					rig.stop()
+				}
+			}
+		}
 		// CSV: registration before / at / after maturity, blocks arriving, repeated HandleCsvTx
 		for i := 0; i < n/4+20; i++ {
 			csv := uint32(r.pickU64([]uint64{1008, 60, 10080, 3}))
